@@ -209,48 +209,61 @@ func cacheBig(c *hx.Ctx, o hx.Op) string {
 // between the file and the decoder. A cap on what is read makes large caches saveable but not loadable; the quick
 // tier cannot afford the 64 MiB that would show it on the running code (thorough: cache-big).
 func cacheLoadUnbounded() (bool, error) {
-	src := hx.SourcePath("/repo/pkg/cache/cache.go")
-	fset := token.NewFileSet()
-	f, err := parser.ParseFile(fset, src, nil, 0)
-	if err != nil {
-		return false, err
-	}
-	for _, d := range f.Decls {
-		fn, ok := d.(*ast.FuncDecl)
-		if !ok || fn.Name.Name != "loadMapGob" || fn.Body == nil {
-			continue
+	// every function of the package that builds a gob DECODER is a loader, whatever its name and whichever file of the
+	// package it lives in (a rename or a move to another file is not a change of behaviour)
+	loaders := 0
+	for _, src := range hx.SourceFiles("/repo/pkg/cache") {
+		fset := token.NewFileSet()
+		f, err := parser.ParseFile(fset, src, nil, 0)
+		if err != nil {
+			return false, err
 		}
-		opened := map[string]bool{} // variables assigned from os.Open
-		decoders, direct, wrapped := 0, 0, false
-		ast.Inspect(fn.Body, func(n ast.Node) bool {
-			switch x := n.(type) {
-			case *ast.AssignStmt:
-				if len(x.Rhs) == 1 {
-					if call, ok := x.Rhs[0].(*ast.CallExpr); ok && isSel(call.Fun, "os", "Open") && len(x.Lhs) > 0 {
-						if id, ok := x.Lhs[0].(*ast.Ident); ok {
-							opened[id.Name] = true
-						}
-					}
-				}
-			case *ast.SelectorExpr:
-				if id, ok := x.X.(*ast.Ident); ok && (id.Name == "io" || id.Name == "bufio" || id.Name == "ioutil") {
-					wrapped = true
-				}
-			case *ast.CallExpr:
-				if isSel(x.Fun, "gob", "NewDecoder") {
-					decoders++
-					if len(x.Args) == 1 {
-						if id, ok := x.Args[0].(*ast.Ident); ok && opened[id.Name] {
-							direct++
-						}
-					}
-				}
+		for _, d := range f.Decls {
+			fn, ok := d.(*ast.FuncDecl)
+			if !ok || fn.Body == nil {
+				continue
 			}
-			return true
-		})
-		return decoders == 1 && direct == 1 && !wrapped, nil
+			opened := map[string]bool{} // variables assigned from os.Open
+			decoders, direct, wrapped := 0, 0, false
+			ast.Inspect(fn.Body, func(n ast.Node) bool {
+				switch x := n.(type) {
+				case *ast.AssignStmt:
+					if len(x.Rhs) == 1 {
+						if call, ok := x.Rhs[0].(*ast.CallExpr); ok && isSel(call.Fun, "os", "Open") && len(x.Lhs) > 0 {
+							if id, ok := x.Lhs[0].(*ast.Ident); ok {
+								opened[id.Name] = true
+							}
+						}
+					}
+				case *ast.SelectorExpr:
+					if id, ok := x.X.(*ast.Ident); ok && (id.Name == "io" || id.Name == "bufio" || id.Name == "ioutil") {
+						wrapped = true
+					}
+				case *ast.CallExpr:
+					if isSel(x.Fun, "gob", "NewDecoder") {
+						decoders++
+						if len(x.Args) == 1 {
+							if id, ok := x.Args[0].(*ast.Ident); ok && opened[id.Name] {
+								direct++
+							}
+						}
+					}
+				}
+				return true
+			})
+			if decoders == 0 {
+				continue
+			}
+			loaders++
+			if !(decoders == 1 && direct == 1 && !wrapped) {
+				return false, nil
+			}
+		}
 	}
-	return false, fmt.Errorf("pkg/cache/cache.go has no function loadMapGob any more: re-derive this fact")
+	if loaders == 0 {
+		return false, fmt.Errorf("no function of pkg/cache builds a gob decoder any more: re-derive this fact")
+	}
+	return true, nil
 }
 
 func isSel(e ast.Expr, pkg, name string) bool {
